@@ -237,6 +237,10 @@ theorem PA_sclosed (c : Prop) (B : Nat → Nat) (now f pid r0 : Nat) :
   hookObs := by
     intro e h ⟨hb, ht, hl⟩
     exact ⟨Bnd_addObs B e _ hb, ht.addObs _ rfl, fun hc => (hl hc).addObs _⟩
+  aux := by
+    intro e hookOf late lateAtt level ⟨hb, ht, hl⟩
+    exact ⟨⟨⟨hb.1.park, hb.1.specs, hb.1.held⟩, hb.2⟩, ⟨ht.onlyF, ht.contNow, ht.obsSame⟩,
+      fun hc => (hl hc).frame rfl rfl rfl (Nat.le_refl _) rfl⟩
 
 section pa
 variable {c : Prop} {B : Nat → Nat} {now f pid r0 : Nat} {e : Eff}
@@ -299,9 +303,11 @@ theorem segTerm_track (c : Prop) (B : Nat → Nat) (now f pid r0 : Nat) (e1 : Ef
     · exact ⟨ht3, hl3⟩
   | ret =>
     simp only [segTerm]
-    have h2 := (h.setProc pid0 { p1 with segs := [], done := true, hooks := [] } hne).addObs
-      (.finish now pid0) rfl
-    have h3 := runHooks_s (PA_sclosed c B now f pid r0) p1.hooks _ h2
+    -- (`clearLate` only rewrites the table of hooks added in flight: an instance of `aux`)
+    have h2a : PA c B now f pid r0 ((e1.setProc pid0 { p1 with segs := [], done := true, hooks := [] }).clearLate pid0) :=
+      (PA_sclosed c B now f pid r0).aux _ _ _ _ _ (h.setProc pid0 { p1 with segs := [], done := true, hooks := [] } hne)
+    have h2 := h2a.addObs (.finish now pid0) rfl
+    have h3 := runHooks_s (PA_sclosed c B now f pid r0) (p1.hooks ++ lateOf e1.ps pid0) _ h2
     exact ⟨h3.2.1, h3.2.2⟩
 
 /-- `ProcessContinuation.invoke` of a process other than `pid` -/
